@@ -230,6 +230,11 @@ def run_thread_scenario(sh, name, program, next_ok, rng):
                     if judge(sh, w, program, sr, 'thr:' + name + '|' + tag) or sr.divs:
                         return s, False
                     if next_ok and rng.random() < 0.4:
+                        if rng.random() < 0.5:
+                            # the first call's record must be intact: its recorded reads still decide
+                            # whether the next build re-executes it
+                            w.ext_write('in0', b'changed after the racing build')
+                            sh.count('later_builds_after_input_change')
                         sr2 = w.build(program, program['roots'][0], {}, label=0, threads=False)
                         sh.count('later_builds')
                         judge(sh, w, program, sr2, 'thr-next:' + name, KINDS | LATER)
